@@ -54,6 +54,10 @@ let parse_ev toks =
   | ["failsend"] -> FailSend
   | _ -> failwith ("bad event: " ^ String.concat " " toks)
 
+(* `hold` .. `unhold` are harness events, unknown to the model: the front-end futures are not polled in between, so the
+   completions the model produces in that window are observed (sorted by handle, like every event's) at `unhold` *)
+let is_completion = function OComplete _ -> true | _ -> false
+
 let show_event (outs, nr) =
   let ws = List.filter_map (function OWire raw -> Some ("W" ^ hex_of_bytes raw) | _ -> None) outs in
   let cs = List.filter_map (function OComplete (h, r) -> Some (int_of_string (nstr h), cres_s r) | _ -> None) outs in
@@ -70,8 +74,15 @@ let handle line =
      | [idstr; qc; bc; gate] ->
        let s0 = init (idstr = "1") (nat_of_int (int_of_string qc)) (nat_of_int (int_of_string bc)) (gate = "1") in
        let evs = List.filter (fun t -> t <> []) (List.map split_ws (String.split_on_char ';' script)) in
+       let held = ref false and buf = ref [] in
        let (sf, outs) = List.fold_left (fun (s, acc) toks ->
-           let ((s', o), nr) = step s (parse_ev toks) in (s', show_event (o, nr) :: acc)) (s0, []) evs in
+           match toks with
+           | ["hold"] -> held := true; (s, "" :: acc)
+           | ["unhold"] -> held := false; let o = !buf in buf := []; (s, show_event (o, None) :: acc)
+           | _ ->
+             let ((s', o), nr) = step s (parse_ev toks) in
+             let o = if !held then (buf := !buf @ List.filter is_completion o; List.filter (fun x -> not (is_completion x)) o) else o in
+             (s', show_event (o, nr) :: acc)) (s0, []) evs in
        let (((a, b), c), d) = table_sizes sf in
        let t = if sf.dead then "Tdead" else Printf.sprintf "T%s,%s,%s,%s" (nstr a) (nstr b) (nstr c) (nstr d) in
        print_endline (String.concat " | " (List.rev outs @ [t]))
